@@ -4,7 +4,7 @@
    for every expression tree of any size.  Declarations and statements are decided by the round-trip search. *)
 From Coq Require Import List NArith Bool Arith.
 From Verif Require Import Base.Res Gen.GenTokens Model.Lexer Model.ExprParser Proofs.ExprParserProofs Proofs.ExprInstance.
-From Verif Require Model.StParser Model.StInstance Model.StRender Proofs.StExprProofs Proofs.StStmtProofs Proofs.StInstanceProofs Proofs.StRenderProofs Model.DeclParser Proofs.DeclProofs Proofs.DeclRenderProofs Proofs.LibProofs Model.LibRender Proofs.LibRenderProofs Proofs.LexSpell Proofs.TextRoundTrip Model.Literals Model.TimeRender Proofs.TimeRenderProofs Model.DurRender Proofs.DurRenderProofs Proofs.LitProofs Proofs.TodExact.
+From Verif Require Model.StParser Model.StInstance Model.StRender Proofs.StExprProofs Proofs.StStmtProofs Proofs.StInstanceProofs Proofs.StRenderProofs Model.DeclParser Proofs.DeclProofs Proofs.DeclRenderProofs Proofs.LibProofs Model.LibRender Proofs.LibRenderProofs Proofs.LexSpell Proofs.TextRoundTrip Model.Literals Model.TimeRender Proofs.TimeRenderProofs Model.DurRender Proofs.DurRenderProofs Proofs.LitProofs Proofs.TodExact Proofs.DurExact.
 Import ListNotations.
 Close Scope N_scope.
 Open Scope nat_scope.
@@ -182,3 +182,11 @@ Proof. exact DurRenderProofs.milliseconds_read. Qed.
 Theorem C10_stored_time_round_trip_iff : forall h m sec nanos : N, (h < 24)%N -> (m < 60)%N -> (sec < 60)%N -> (nanos < 1000000000)%N ->
   (TimeRender.read_back h m sec (nanos / 1000) = Some (h, m, sec, nanos) <-> (nanos mod 1000 = 0)%N).
 Proof. exact TodExact.stored_time_round_trip_iff. Qed.
+
+(* ... and for durations: the library keeps (seconds, nanoseconds), the renderer writes whole_milliseconds() = secs * 1000 +
+   nanos / 10^6 in decimal; what is read back is the stored duration exactly when it has no part finer than a millisecond. *)
+Theorem C10_stored_duration_round_trip_iff : forall (secs nanos : N) (ds : list N),
+  (nanos < 1000000000)%N -> (secs * 1000 + nanos / 1000000 < Literals.two64)%N ->
+  Forall (fun x => x < 10)%N ds -> ds <> [] -> LitProofs.horner 10 ds = (secs * 1000 + nanos / 1000000)%N ->
+  (DurRender.read_milliseconds (LitProofs.digits_text ds) = Some (secs, nanos) <-> (nanos mod 1000000 = 0)%N).
+Proof. exact DurExact.stored_duration_round_trip_iff. Qed.
